@@ -166,6 +166,11 @@ func main() {
 				es = append(es, e)
 			}
 			sort.SliceStable(es, func(a, b int) bool { return es[a].Offset < es[b].Offset })
+			if c.Bool("countonly") {
+				// deep-chain cases: thousands of objects; the reply is the number of objects indexed, the idx/rev go to the oracle
+				return lib.Ok(lib.Uint(uint64(len(es)))),
+					map[string]string{"idx": hex.EncodeToString(ib.Bytes()), "rev": hex.EncodeToString(rb.Bytes())}
+			}
 			var rows []lib.Out
 			for _, e := range es {
 				h := ho.at[int64(e.Offset)]
